@@ -16,6 +16,14 @@ def mk_utpm(ctx, algopy, X, ld='infer'):
     if X.dtype == object:
         X = np.array(X.tolist(), dtype=complex if any(isinstance(e, complex) for e in X.ravel()) else float)
     X = X.copy()
+    if ctx.opts.get('layout') == 'FULL_F':
+        # the whole coefficient array in Fortran order (the D and P axes cannot be merged without a copy)
+        return algopy.UTPM(np.asfortranarray(X))
+    if ctx.opts.get('layout') == 'PVIEW' and X.ndim >= 2:
+        # every second direction of a larger buffer (a non-contiguous direction axis)
+        big = np.zeros((X.shape[0], 2 * X.shape[1]) + X.shape[2:], dtype=X.dtype)
+        big[:, ::2] = X
+        return algopy.UTPM(big[:, ::2])
     if ctx.opts.get('layout') == 'F' and X.ndim >= 4:
         # every coefficient matrix in Fortran order (what LAPACK wrappers may overwrite in place)
         X = np.ascontiguousarray(np.swapaxes(X, -1, -2)).swapaxes(-1, -2)
